@@ -4,7 +4,9 @@
 // Case term: CRecv [(signal, (items, err?))] <counter vector>.
 // Direct oracle (independent of the Coq model), evaluated after EVERY operation: the increment of
 // accepted_s + refused_s is the number of items offered, which of the two moves follows the
-// error, and no other counter moves.
+// error, and no other counter moves — under every tracer provider (recording spans, no-op provider,
+// sampler that drops the span) and with a live or an already cancelled operation context; when the
+// span records, its accepted/refused attributes carry the same numbers.
 package receiverhelper
 
 import (
@@ -14,7 +16,6 @@ import (
 	"testing"
 
 	"go.opentelemetry.io/collector/component"
-	"go.opentelemetry.io/collector/component/componenttest"
 	"go.opentelemetry.io/collector/receiver"
 )
 
@@ -24,12 +25,12 @@ type vRecvOp struct {
 	err bool
 }
 
-func vC19RecvTerm(ops []vRecvOp, vec [vC19NCounters]int64) string {
+func vC19RecvTerm(recording bool, ops []vRecvOp, vec [vC19NCounters]int64) string {
 	it := make([]string, len(ops))
 	for i, o := range ops {
 		it[i] = vPair(vZ(int64(o.sig)), vPair(vZ(int64(o.n)), vBool(o.err)))
 	}
-	return "CRecv " + vList(it) + " " + vC19Vec(vec)
+	return "CRecv " + vBool(recording) + " " + vList(it) + " " + vC19Vec(vec)
 }
 
 func vC19Size(rng *vRand) int {
@@ -56,14 +57,17 @@ func TestVerifC19Recv(t *testing.T) {
 		for i := range ops {
 			ops[i] = vRecvOp{sig: rng.Intn(3), n: vC19Size(rng), err: rng.Pick(3, 2) == 1}
 		}
-		tel := componenttest.NewTelemetry()
+		mode := vC19TelMode(rng)
+		tel, tset, recording := vC19NewTel(mode)
+		out.Stat(fmt.Sprintf("tracer_mode%d", mode), 1)
 		longLived := rng.Bool()
+		cancelled := rng.Intn(4) == 0 // the operation's context is already cancelled when the op ends (client went away)
 		transport := []string{"", "grpc", "http"}[rng.Intn(3)]
 		rec, err := NewObsReport(ObsReportSettings{
 			ReceiverID:             component.MustNewIDWithName("verif", fmt.Sprint(c)),
 			Transport:              transport,
 			LongLivedCtx:           longLived,
-			ReceiverCreateSettings: receiver.Settings{ID: component.MustNewID("verif"), TelemetrySettings: tel.NewTelemetrySettings(), BuildInfo: component.NewDefaultBuildInfo()},
+			ReceiverCreateSettings: receiver.Settings{ID: component.MustNewID("verif"), TelemetrySettings: tset, BuildInfo: component.NewDefaultBuildInfo()},
 		})
 		if err != nil {
 			t.Fatal(err)
@@ -76,6 +80,11 @@ func TestVerifC19Recv(t *testing.T) {
 				e = errors.New("downstream refused")
 			}
 			ctx := context.Background()
+			if cancelled {
+				c2, cancel := context.WithCancel(ctx)
+				cancel()
+				ctx = c2
+			}
 			switch o.sig {
 			case 0:
 				ctx = rec.StartTracesOp(ctx)
@@ -97,12 +106,19 @@ func TestVerifC19Recv(t *testing.T) {
 			} else {
 				want[2*o.sig] += int64(o.n)
 			}
+			if recording { // the span of the operation carries the same two numbers
+				if o.err {
+					want[vC19SpanBase+2*o.sig+1] += int64(o.n)
+				} else {
+					want[vC19SpanBase+2*o.sig] += int64(o.n)
+				}
+			}
 			if violated == "" && (cur.vec != want || len(cur.unknown) > 0) {
-				violated = fmt.Sprintf("op %d signal=%d items=%d err=%v: counters %v, expected %v (unknown %v)", i, o.sig, o.n, o.err, cur.vec, want, cur.unknown)
+				violated = fmt.Sprintf("tracer_mode=%d cancelled_ctx=%v op %d signal=%d items=%d err=%v: counters %v, expected %v (unknown %v)", mode, cancelled, i, o.sig, o.n, o.err, cur.vec, want, cur.unknown)
 			}
 			prev = cur.vec
 		}
-		term := vC19RecvTerm(ops, prev)
+		term := vC19RecvTerm(recording, ops, prev)
 		if violated != "" {
 			out.Oracle("receiver-imbalance", term, violated)
 		}
